@@ -323,4 +323,28 @@ PROPERTIES = {
                          "builder_rejection_probes": 200000},
         },
     },
+    "C14": {
+        "level": "exploration",
+        "rule": ("1..2 device-under-test modules with stacks of 0..4 elements from {pass, tag (sets a bit in the message), consume-if(id % m == r), chatty (sends a message "
+                 "from every hook)}, supplied globally through set_stack, per module through Module::stack, or both; 3..42 self messages at distinct instants, a task "
+                 "with timer wake-ups, 1..2 start stages, optionally shutdown-and-restart (restart stages), tear-down; handlers optionally send two messages. All hooks, "
+                 "handlers, task wake-ups and the receptions of the messages sent from hooks log into one sequence. Oracle = bracket grammar per module event: "
+                 "event_start exactly once per element in stack order; incoming only after that element's start, in order, element i+1 sees exactly the tags "
+                 "element i returned, stops at the first consumer; handler iff nobody consumed, with the final tags; event_end once per element in reverse order "
+                 "after the body; no hook of another event inside a bracket; start / restart / wake-up / tear-down brackets without incoming; each scheduled message "
+                 "handled or consumed exactly once; messages sent during events arrive in program order. Non-trivial = case with a stack >= 2 in which an element "
+                 "consumed a message; distinct = hash of the case."),
+        "assumptions": ["events whose handler panics are C13's domain and are not generated here",
+                        "a task whose timer is due may run inside any bracket of its module (not only inside a wake-up bracket)"],
+        "stages": [
+            native("brackets", "desmon", "c14", tiers=QT, timeout={"quick": 900, "thorough": 5400}),
+        ],
+        "floor": {
+            "quick": {"brackets_parsed": 800000, "messages_consumed_by_an_element": 100000, "timer_wakeup_brackets": 20000, "restart_stage_brackets": 5000,
+                      "teardown_brackets": 20000, "messages_sent_from_hooks_received": 500000, "cases_with_global_and_module_stack": 5000,
+                      "cases_with_stack_of_4": 2000, "cases_with_stack_of_0": 300},
+            "thorough": {"brackets_parsed": 16000000, "messages_consumed_by_an_element": 2000000, "timer_wakeup_brackets": 400000,
+                         "restart_stage_brackets": 100000, "cases_with_global_and_module_stack": 100000},
+        },
+    },
 }
